@@ -7,6 +7,15 @@ import ast
 import re
 
 
+def _same_object(a, b):
+    """identity of interpreted values: a stand-in that represents ONE object of the interpreted program (a class) may exist
+    several times in the evaluator; it says so through `same_object`"""
+    if a is b:
+        return True
+    f = getattr(a, "same_object", None)
+    return bool(f is not None and f(b))
+
+
 class Unsupported(Exception):
     pass
 
@@ -166,9 +175,9 @@ class Evaluator:
                     elif isinstance(op, ast.NotIn):
                         ok = left not in right
                     elif isinstance(op, ast.Is):
-                        ok = left is right
+                        ok = _same_object(left, right)
                     elif isinstance(op, ast.IsNot):
-                        ok = left is not right
+                        ok = not _same_object(left, right)
                     else:
                         raise Unsupported("compare op")
                 except TypeError as err:
